@@ -81,6 +81,7 @@ int rt_thread_blocked (int tid);      /* valid after rt_wait_quiescent() returne
 int rt_thread_done (int tid);
 int rt_thread_in_wait (int tid);      /* hint, usable at any time: tid is inside a (modelled or real) futex wait */
 const char *rt_thread_op (int tid);
+const char *rt_thread_at (int tid);   /* nsync function of tid's last atomic step outside the semaphore files ("" if none) */
 
 /* ---- word watching (shim after-hook) ------------------------------------------------- */
 typedef void (*rt_word_cb) (int idx, int op, uint32_t old_v, uint32_t new_v, int ok);
